@@ -120,6 +120,24 @@ theorem fbound_createTopic {s : St} (h : FBound s) (ph : Nat) (n : String) (k : 
           have := overflows_false_lt (w := U16) (by decide) (by have := (hb p.uid).2.2.1; unfold U16; omega) hg
           exact ⟨h.1, fun u => ⟨(hb u).1, (hb u).2.1, bump_le _ _ _ (fun v => (hb v).2.2.1) (by unfold U16 at this; omega) u, (hb u).2.2.2⟩⟩
 
+theorem fbound_findTopicOp {s : St} (h : FBound s) (ph : Nat) (n : String) (k d : Bool) :
+    FBound (findTopicOp s ph n k d).1 := by
+  unfold findTopicOp
+  split
+  · exact h
+  · rename_i p _
+    split
+    · exact h
+    · split
+      · exact h
+      · simp only
+        split
+        · exact h
+        · rename_i hg
+          have hb := h.2
+          have := overflows_false_lt (w := U16) (by decide) (by have := (hb p.uid).2.2.1; unfold U16; omega) hg
+          exact ⟨h.1, fun u => ⟨(hb u).1, (hb u).2.1, bump_le _ _ _ (fun v => (hb v).2.2.1) (by unfold U16 at this; omega) u, (hb u).2.2.2⟩⟩
+
 theorem fbound_createCft {s : St} (h : FBound s) (r : TopicRef) (n : String) (v : Bool) :
     FBound (createCft s r n v).1 := by
   unfold createCft
@@ -226,6 +244,7 @@ theorem good_step {s : St} (h : Good s) (op : Op) : Good (step s op).1 := by
   | createSub ph a => exact ⟨inv_createSub hi ph a, fbound_createSub hd ph a⟩
   | deleteSub via r => exact ⟨inv_deleteSub hi via r, hd.of_cnt (cnt_deleteSub s via r) (np_deleteSub s via r)⟩
   | createTopic ph n k => exact ⟨inv_createTopic hi ph n k, fbound_createTopic hd ph n k⟩
+  | findTopic ph n k d => exact ⟨inv_findTopicOp hi ph n k d, fbound_findTopicOp hd ph n k d⟩
   | deleteTopic via r => exact ⟨inv_deleteTopic hi via r, hd.of_cnt (cnt_deleteTopic s via r) (np_deleteTopic s via r)⟩
   | createCft r n v => exact ⟨inv_createCft hi r n v, fbound_createCft hd r n v⟩
   | deleteCft ph n => exact ⟨inv_deleteCft hi ph n, hd.of_cnt (cnt_deleteCft s ph n) (np_deleteCft s ph n)⟩
